@@ -23,6 +23,22 @@ for mod in mods:
         for mm in [x for x in imports(mod) if x.startswith("PDesy.Lemmas.") and x not in ("PDesy.Lemmas.Defs", "PDesy.Lemmas.Loop")] + [mod]:
             if mm not in e["modules"]:
                 e["modules"].append(mm)
+# theorems that also discharge a clause of another property
+EXTRA = {
+    "C08": [("PDesy.C17_aligned", "PDesy.Props.C17"), ("PDesy.C18_reverse_aligned", "PDesy.Props.C18"), ("PDesy.C18_sequence", "PDesy.Props.C18")],
+    "C17": [("PDesy.C09_resim", "PDesy.Props.C09Det"), ("PDesy.C09_history_indep", "PDesy.Props.C09Det")],
+    "C15": [("PDesy.C16_import_export", "PDesy.Props.C16"), ("PDesy.C16_resimulate", "PDesy.Props.C16")],
+    "C10": [("PDesy.C07_absence_entry", "PDesy.Props.C07"), ("PDesy.C03_run", "PDesy.Props.C03")],
+    "C02": [("PDesy.C03_run", "PDesy.Props.C03")],
+    "C13": [("PDesy.C04_added_fac_step", "PDesy.Props.C04")],
+}
+for pid, lst in EXTRA.items():
+    if pid in out:
+        for thm, mod in lst:
+            if thm not in out[pid]["theorems"]:
+                out[pid]["theorems"].append(thm)
+            if mod not in out[pid]["modules"]:
+                out[pid]["modules"].append(mod)
 json.dump(dict(sorted(out.items())), open(os.path.join(LEAN, "obligations.json"), "w"), indent=1)
 for k, v in sorted(out.items()):
     print(k, len(v["theorems"]), v["modules"])
